@@ -419,8 +419,8 @@ func c09Child(args []string) int {
 		x.opts.MaxDuration = time.Second
 		if strings.HasPrefix(p.name, "heavy-") || strings.HasPrefix(p.name, "limit-") || strings.Contains(p.name, "doubling") || strings.Contains(p.name, "retained") {
 			// these end by the depth / nesting limit (or kill the process): no deadline in the way, so that the
-			// outcome does not depend on how fast the machine is
-			x.opts.MaxDuration = 60 * time.Second
+			// outcome does not depend on how fast the machine is (a 15 s deadline instead of 1 s; slower shapes end by it)
+			x.opts.MaxDuration = 15 * time.Second
 		}
 		fmt.Printf("C09START %s\n", p.name)
 		src := p.gen()
